@@ -43,7 +43,7 @@ class Table:
         self.s = s
         self.cv = threading.Condition()
         self.procs = {}
-        self.next_pid = 1000
+        self.next_pid = 5_000_000  # above the kernel's pid_max: can never name a real process
         self.spawn_log = []
 
     def new_pid(self):
@@ -183,6 +183,10 @@ def run_schedule(sc, chooser_factory, workdir, res, wit):
     spawn_kinds = {}
 
     def fake_popen(cmd, **kw):
+        if cmd[-1] == "late":
+            p = SimProc(table, "hang", "late")
+            table.spawn_log.append(("late", p.pid, S.step))
+            return p
         k = int(cmd[-1]) if cmd[-1].isdigit() else int(os.path.basename(cmd[-1]).split(".")[0])
         j = sc["jobs"][k]
         p = SimProc(table, j["kind"], k, nchildren=j["nchildren"])
@@ -245,6 +249,8 @@ def run_schedule(sc, chooser_factory, workdir, res, wit):
             else:
                 f = P.PopenFuture(["job", str(k)], timeout=j["timeout"])
                 st.future = f
+                if k == 0:
+                    fut_created.set()
                 f.add_done_callback(lambda fut: st.callbacks.append(S.step))
                 st.call_step = S.step
                 try:
@@ -274,13 +280,18 @@ def run_schedule(sc, chooser_factory, workdir, res, wit):
             state["shutdown_exc"] = f"{type(e).__name__}: {e}"
         state["alive_at_return"] = [(p.job, p.pid, p.kind) for p in table.procs.values() if p.alive()]
         state["shutdown_returned"] = S.step
+        sd_done.set()
+
+    sd_done = threading.Event()
+    fut_created = threading.Event()
 
     def late():
-        while state["shutdown_returned"] is None and not S.stop:
-            time.sleep(0.002)
+        while not sd_done.wait(0.05):
+            if S.stop:
+                return  # shutdown never returned while the schedule was controlled: nothing to test
         st = Job()
         st.k, st.accepted, st.outcome = "late", None, None
-        f = P.PopenFuture(["job", "0"], timeout=None)
+        f = P.PopenFuture(["job", "late"], timeout=None)
         try:
             ex.submit(f)
             st.accepted = True
@@ -290,11 +301,10 @@ def run_schedule(sc, chooser_factory, workdir, res, wit):
 
     def canceller():
         # direct cancel of job 0's future once it exists
-        for _ in range(2000):
-            f = getattr(jobs[0], "future", None)
-            if f is not None or S.stop:
-                break
-            time.sleep(0.001)
+        while not fut_created.wait(0.05):
+            if S.stop:
+                return
+        f = getattr(jobs[0], "future", None)
         if f is not None:
             f.cancel()
             state["cancelled"] = S.step
@@ -335,7 +345,22 @@ def _judge(sc, S, table, jobs, state, threads, thread_errors, res, wit):
     res["counters"]["steps"] += S.step
     for n, _ in S.trace:
         res["features"]["op:" + n.split(":")[0]] += 1
-    viol = lambda what, key, **kw: res["violations"].append(dict(what=what, key=key, **kw, **w))
+    LIVENESS = ("survivor-after-shutdown", "waiter-blocked", "timeout-survivor", "wait-shutdown-ended-early")
+
+    def viol(what, key, **kw):
+        if S.uncertain and key.startswith(LIVENESS):
+            # the run was ended by a watchdog, not by established quiescence: "nothing can happen any more" is not known
+            res["counters"]["liveness_verdicts_skipped_uncertain_quiescence"] += 1
+            return
+        res["violations"].append(dict(what=what, key=key, **kw, **w))
+
+    res["counters"]["quiescence_probes"] += S.probes
+    if S.uncertain:
+        res["counters"]["schedules_ended_by_watchdog"] += 1
+    elif S.stalled:
+        res["counters"]["schedules_ended_quiescent_blocked"] += 1
+    else:
+        res["counters"]["schedules_ended_all_threads_finished"] += 1
     if S.step >= S.max_steps:
         res["counters"]["schedules_step_limit"] += 1
     if thread_errors:
@@ -464,6 +489,40 @@ def sim_worker(task):
 
 
 # ------------------------------------------------------------------------------------------ real subprocesses
+def pid_gone(pid):
+    """the process has exited (absent or zombie)"""
+    try:
+        st = open(f"/proc/{pid}/stat").read().rsplit(")", 1)[1].split()[0]
+        return st in ("Z", "X")
+    except (OSError, IndexError):
+        return True
+
+
+def wait_wrappers_gone(futs, limit=12.0):
+    """logical grace period: the kill of a process tree is complete once the wrapper processes themselves have exited
+    (a fixed sleep is not: on a loaded machine the worker thread may need a long time to reach its cancel)"""
+    t_end = time.time() + limit
+    pids = [f.process.pid for f in futs if f.process is not None]
+    pending = [f for f in futs if f.process is None and not f.done()]
+    while time.time() < t_end:
+        pids += [f.process.pid for f in pending if f.process is not None]
+        pending = [f for f in pending if f.process is None and not f.done()]
+        if not pending and all(pid_gone(p) for p in pids):
+            return True
+        time.sleep(0.02)
+    return False
+
+
+def marker_cmdlines(mark):
+    out = []
+    for pid in marker_alive(mark):
+        try:
+            out.append(open(f"/proc/{pid}/cmdline", "rb").read().replace(b"\0", b" ").decode().strip())
+        except OSError:
+            pass
+    return out
+
+
 def marker_alive(mark):
     out = []
     for pid in os.listdir("/proc"):
@@ -483,13 +542,33 @@ def marker_alive(mark):
 STUBS = {
     "fast": "echo unsat",
     "slow": "exec sleep 30",
-    "big": "head -c 200000 /dev/zero | tr '\\0' a; echo",
+    "big": "exec head -c 200000 /dev/zero",
     # runs that contain the forking wrapper ("children") call shutdown only once its process tree is established (the harness waits until
     # all expected descendants carry the marker): a cancel that arrives *while* a wrapper is forking is the known finding probed separately
     "children": "sleep 30 & sleep 31 & wait",
     "stubborn": "trap '' TERM; exec sleep 30",
     "mid": "sleep 0.05; echo unsat",
 }
+
+
+CANCEL_LOG = []
+
+
+def watch_cancel():
+    """monitor on PopenFuture.cancel: records exceptions that escape it (they are swallowed by the cancellation thread pool)"""
+    if getattr(P.PopenFuture.cancel, "_c17", False):
+        return
+    orig = P.PopenFuture.cancel
+
+    def cancel(self):
+        try:
+            return orig(self)
+        except BaseException as e:  # noqa
+            CANCEL_LOG.append(f"{type(e).__name__}: {e} (pid {self.process.pid if self.process else None})"[:200])
+            raise
+
+    cancel._c17 = True
+    P.PopenFuture.cancel = cancel
 
 
 def real_worker(task):
@@ -499,8 +578,10 @@ def real_worker(task):
     import psutil
 
     P.Popen, P.psutil = subprocess.Popen, psutil
+    watch_cancel()
     for idx in range(lo, hi):
         rng = random.Random(f"c17-{seed}-real-{idx}")
+        del CANCEL_LOG[:]
         mark = f"VERIF_C17_MARK_{os.getpid()}_{idx}_{rng.getrandbits(32):08x}"
         os.environ["VERIF_C17_MARK"] = mark
         ex = P.PopenExecutor()
@@ -544,18 +625,19 @@ def real_worker(task):
             for rec in list(recs):
                 if rec["accepted"] and rec["kind"] in ("fast", "big", "mid"):
                     out = rec["future"].result(timeout=20)
-                    want = {"fast": "unsat\n", "mid": "unsat\n", "big": "a" * 200000 + "\n"}[rec["kind"]]
+                    want = {"fast": "unsat\n", "mid": "unsat\n", "big": "\0" * 200000}[rec["kind"]]
                     res["counters"]["calm_results_checked"] += 1
                     if out != (want, "", 0):
                         res["violations"].append(dict(what="a job that ended normally delivered a wrong result", key="real-wrong-result", kind=rec["kind"], got=(out[0][:40], out[1][:40], out[2]), index=idx, mode="real"))
         elif wrappers:
             for t in ths:
                 t.join()
-            want = 3 * sum(1 for r in recs if r["accepted"] and r["kind"] == "children")
-            t_w = time.time() + 5.0
-            while time.time() < t_w and len(marker_alive(mark)) < want:
+            want = 2 * sum(1 for r in recs if r["accepted"] and r["kind"] == "children")
+            nsleeps = lambda: sum(1 for c in marker_cmdlines(mark) if c in ("sleep 30", "sleep 31"))
+            t_w = time.time() + 8.0
+            while time.time() < t_w and nsleeps() < want:
                 time.sleep(0.01)
-            established = len(marker_alive(mark)) >= want
+            established = nsleeps() >= want
             res["counters"]["real_runs_with_established_trees" if established else "real_runs_tree_not_established"] += 1
             time.sleep(rng.choice([0, 0.01, 0.3]))
         else:
@@ -576,7 +658,9 @@ def real_worker(task):
             res["violations"].append(dict(what="a job submitted after shutdown() had returned was accepted (real processes)", key="real-late-submit-accepted", **wit))
         except P.ShutdownError:
             res["counters"]["late_submits"] += 1
-        # grace period, then no marked process may be alive
+        # grace period (until the wrappers of all accepted jobs have exited, then 1.5 s), then no marked process may be alive
+        if not wait_wrappers_gone([r["future"] for r in recs if r["accepted"]]):
+            res["counters"]["real_runs_wrappers_not_gone_within_12s"] += 1
         t_end = time.time() + 1.5
         alive = marker_alive(mark)
         while alive and time.time() < t_end:
@@ -596,7 +680,7 @@ def real_worker(task):
                     cmds.append(open(f"/proc/{pid}/cmdline", "rb").read().replace(b"\0", b" ").decode()[:80])
                 except OSError:
                     pass
-            res["violations"].append(dict(what="solver processes are still running 1.5 s after shutdown(wait=False) returned (real processes)", key="real-survivor", survivors=cmds[:6],
+            res["violations"].append(dict(what="solver processes are still running 1.5 s after shutdown(wait=False) returned (real processes)", key="real-survivor", survivors=cmds[:6], cancel_exceptions=list(CANCEL_LOG)[:5],
                                           records=[{k: str(v) for k, v in r.items() if k != "future"} for r in recs][:8], **wit))
             for pid in alive:
                 try:
@@ -650,17 +734,22 @@ def probe_fork_during_cancel(task):
     import psutil
 
     P.Popen, P.psutil = subprocess.Popen, psutil
+    watch_cancel()
     res = new_result()
     orphans = 0
     for i in range(30):
+        del CANCEL_LOG[:]
         mark = f"VERIF_C17_PROBE_{os.getpid()}_{i}"
         os.environ["VERIF_C17_MARK"] = mark
         ex = P.PopenExecutor()
-        ex.submit(P.PopenFuture(["sh", "-c", "sleep 30 & sleep 31 & sleep 32 & sleep 33 & wait"]))
+        fut = P.PopenFuture(["sh", "-c", "sleep 30 & sleep 31 & sleep 32 & sleep 33 & wait"])
+        ex.submit(fut)
         time.sleep([0, 0.0005, 0.001, 0.002, 0.003][i % 5])
         ex.shutdown(wait=False)
-        time.sleep(0.3)
+        gone = wait_wrappers_gone([fut])
+        time.sleep(0.2)
         alive = marker_alive(mark)
+        wrapper = fut.process.pid if fut.process is not None else None
         cmds = []
         for pid in alive:
             try:
@@ -668,10 +757,10 @@ def probe_fork_during_cancel(task):
                 os.kill(pid, 9)
             except OSError:
                 pass
-        if alive and all(c.startswith("sleep") for c in cmds):
+        if alive and wrapper not in alive:
             orphans += 1
         elif alive:
-            res["violations"].append(dict(what="the solver wrapper itself survived shutdown(wait=False) (real processes)", key="real-survivor-parent", survivors=cmds, index=i, mode="probe"))
+            res["violations"].append(dict(what="the solver wrapper itself survived shutdown(wait=False) (real processes)", key="real-survivor-parent", survivors=cmds, cancel_exceptions=list(CANCEL_LOG)[:5], index=i, mode="probe"))
         res["counters"]["probe_runs"] += 1
     res["counters"]["probe_orphans_after_cancel_during_fork"] += orphans
     return res
@@ -700,7 +789,9 @@ def main():
     nr, ns, nreal = run.n(320, 8000), run.n(6, 120), run.n(60, 1500)
     tasks = [("random", lo, min(nr, lo + 8), run.seed) for lo in range(0, nr, 8)]
     tasks += [("systematic", i, i + 1, run.seed) for i in range(ns)]
-    tasks += [("real", lo, min(nreal, lo + 4), run.seed) for lo in range(0, nreal, 4)]
+    run_pool(run, worker, tasks, soft_timeout=1500)
+    # the runs with real subprocesses use fresh worker processes that never ran a simulated schedule (no leftover threads, no patched module)
+    tasks = [("real", lo, min(nreal, lo + 4), run.seed) for lo in range(0, nreal, 4)]
     tasks += [("probe", 0, 0, run.seed)]
     run_pool(run, worker, tasks, soft_timeout=1500)
     if run.counters.get("probe_orphans_after_cancel_during_fork", 0):
